@@ -238,12 +238,29 @@ def run(tier):
         exp = "%d %d" % (lens[cid], 4 * lens[cid])
         if last != exp:
             cmism += 1; ck.violation("named-length", "array with named constant length: |arr| and size-of print '%s', expected '%s'" % (last, exp), src)
+    # named lengths beyond 32 bits (only size-of: nothing is allocated)
+    big = [("n%d" % i, "const BIG: usize = %d;\nfn main() -> u8\n{\n\tprint!(|:[BIG]u8|, \" \", |:[BIG]u16|, \"\\n\");\n\treturn: 0\n}\n" % v, v)
+           for i, v in enumerate([65536, (1 << 31) + 1, (1 << 32) - 1, 1 << 32, (1 << 32) + 3, (1 << 33) + 5, (1 << 40) + 7])]
+    def bigwitness(src):
+        f = C.run_harness("exec", [("w", src)], ck.work + "/witness", timeout=120).get("w", ["missing"])
+        return None if f[0].startswith("ok") or f[0].startswith("err codes=") else C.failure_key(f[0])
+    ck.witness_runner = bigwitness
+    impl3 = C.run_harness("exec", [(b[0], b[1]) for b in big], ck.work + "/big", timeout=600)
+    for cid, src, v in big:
+        f = impl3.get(cid, ["missing"])
+        if not f[0].startswith("ok"):
+            if f[0].startswith("err codes="): ck.violation("const-rejected:" + f[0], "an array type with a named length of %d is rejected: %s" % (v, f[0]), src)
+            else: ck.violation(C.failure_key(f[0]), "compilation of an array type with a named length of %d ended without a diagnostic: %s" % (v, f[0][:200]), src)
+            continue
+        out = C.unesc(f[1].split(" out=", 1)[1].split(" stderr=")[0]).decode(errors="replace").strip()
+        if out != "%d %d" % (v, 2 * v):
+            cmism += 1; ck.violation("named-length", "size-of arrays with named length %d prints '%s', expected '%d %d'" % (v, out, v, 2 * v), src)
     ck.log("constants: %d programs compared, %d problems" % (ccmp, cmism))
     if not proof_ok:
         ck.violation("tie-broken:proof", "Props/C10.v no longer checks", getattr(ck, "proof_output", "")[-2000:])
     ck.coverage.update(
         evaluations=len(lcases) + len(ccases), distinct_nontrivial=len(distinct),
-        rule="layout stream: 1-5 random struct/word declarations (primitive, pointer, array, nested struct/word members) per program, `|:T|` and `|:[N]T|` printed at run time vs Model/Layout.v; E380 iff the model's word_accepted is false, including EVERY word of 1-4 members of 1/2/4/8 bytes at every declared size; constants stream: 1-6 constants over all integer types (arithmetic, bitwise, shifts, casts, references to earlier constants) printed next to a variable with the same initialiser and compared with the interpreter, plus an array whose length is a named constant, and |x| of an array literal / variable passed by view and by slice pointer; size-of constants written before the structures they measure, used as array lengths; distinct = distinct type layouts queried",
+        rule="layout stream: 1-5 random struct/word declarations (primitive, pointer, array, nested struct/word members) per program, `|:T|` and `|:[N]T|` printed at run time vs Model/Layout.v; E380 iff the model's word_accepted is false, including EVERY word of 1-4 members of 1/2/4/8 bytes at every declared size; constants stream: 1-6 constants over all integer types (arithmetic, bitwise, shifts, casts, references to earlier constants) printed next to a variable with the same initialiser and compared with the interpreter, plus an array whose length is a named constant, and |x| of an array literal / variable passed by view and by slice pointer; size-of constants written before the structures they measure, used as array lengths; named lengths up to 2^40 (size-of only); distinct = distinct type layouts queried",
         layout_stats=dict(stats), layout_problems=mism, const_programs=ccmp, const_problems=cmism,
         samples=[dict(source=lcases[0][1][:800], output=impl.get(lcases[0][0], ["?", "?"])[1][:200]), dict(source=ccases[0][1][:600])])
     ck.assumptions += ["`|x|` through the different parameter kinds is covered by the C01/C08 exec streams once arrays are generated there",
